@@ -792,3 +792,242 @@ example : blockSafe sIssued [0, 1] = true ∧ sIssued.slashProps.any (fun p => p
   refine ⟨by decide +kernel, by decide +kernel, by decide +kernel⟩
 
 end Sekai.Props.REC
+
+/-! ## C10: pool ids (the `v<id>/…` share denominations) stay distinct over rotations and pool creations -/
+namespace Sekai.Props.REC
+open Sekai.Recovery
+
+/-- the pool record (its id) of every address after `movePool`, as a function of the pool records before -/
+theorem movePool_pool (old new : Addr) (S : State) (a : Addr) :
+    (movePool old new S).claims .pool 0 a =
+      match S.claims .pool 0 old with
+      | none => S.claims .pool 0 a
+      | some v => if a = new then some v else if a = old then none else S.claims .pool 0 a := by
+  unfold movePool
+  cases h : S.claims .pool 0 old with
+  | none => rfl
+  | some v =>
+    simp only
+    have key : (moveClaim1 .pool 0 old new S).claims .pool 0 a =
+        (if a = new then some v else if a = old then none else S.claims .pool 0 a) := by
+      show (if Kind.pool = Kind.pool ∧ (0 : Nat) = 0 then (match S.claims .pool 0 old with
+            | none => S.claims .pool 0 a
+            | some v => if a = new then some v else if a = old then none else S.claims .pool 0 a) else S.claims .pool 0 a) = _
+      rw [if_pos ⟨rfl, rfl⟩, h]
+    split
+    · exact key
+    · split
+      · exact key
+      · exact key
+
+theorem movePool_lastPool (old new : Addr) (S : State) : (movePool old new S).lastPool = S.lastPool := by
+  unfold movePool; split
+  · rfl
+  · split
+    · rfl
+    · split <;> rfl
+theorem moveRewards_lastPool (old new : Addr) (S : State) : (moveRewards old new S).lastPool = S.lastPool := by
+  unfold moveRewards; split
+  · rfl
+  · split <;> rfl
+theorem moveVal_lastPool (old new : Addr) (S : State) : (moveVal old new S).lastPool = S.lastPool := by
+  unfold moveVal; split <;> rfl
+theorem moveCoins_lastPool (old new : Addr) (S : State) : (moveCoins old new S).lastPool = S.lastPool := by
+  unfold moveCoins; split <;> rfl
+theorem send_lastPool {S S' : State} {a b : Addr} {d : Denom} {n : Int} (h : send S a b d n = .ok S') : S'.lastPool = S.lastPool := by
+  unfold send at h
+  split at h
+  · cases h
+  · split at h
+    · cases h
+    · cases h; rfl
+
+/-- `MsgRotateValidatorByHalfRRTokenHolder` never writes the pool-id counter, and the pool records afterwards are those
+of `movePool` -/
+theorem rotate_by_holder_pools {S S' : State} {m : HolderMsg} (h : rotateByHolder S m = .ok S') :
+    S'.lastPool = S.lastPool ∧ ∀ a, S'.claims .pool 0 a = (movePool m.addr m.recovery S).claims .pool 0 a := by
+  obtain ⟨tok, R, c, _, _, _, _, _, rfl⟩ := rotateByHolder_ok h
+  constructor
+  · show (holderMoves1 m.addr m.recovery tok (withRotation S m.addr m.recovery)).lastPool = _
+    unfold holderMoves1
+    show (moveVal _ _ (movePool _ _ (moveRewards _ _ _))).lastPool = _
+    rw [moveVal_lastPool, movePool_lastPool, moveRewards_lastPool]; rfl
+  · intro a
+    show (moveClaim .vote m.addr m.recovery (moveClaim .actor m.addr m.recovery _)).claims .pool 0 a = _
+    rw [moveClaim_claims_ne (by decide), moveClaim_claims_ne (by decide)]
+    show (holderMoves1 m.addr m.recovery tok (withRotation S m.addr m.recovery)).claims .pool 0 a = _
+    unfold holderMoves1
+    rw [moveClaim_claims_ne (by decide), moveVal_claims, movePool_pool, movePool_pool,
+      moveRewards_claims_ne (by decide), moveDelegators_claims_ne (by decide), moveCompound_claims_ne (by decide)]
+    rfl
+
+theorem movePool_pool_congr (old new : Addr) {X Y : State} (h : X.claims .pool = Y.claims .pool) (a : Addr) :
+    (movePool old new X).claims .pool 0 a = (movePool old new Y).claims .pool 0 a := by
+  rw [movePool_pool, movePool_pool, h]
+
+theorem secretMoves2_pool (old new : Addr) (X : State) (a : Addr) :
+    (secretMoves2 old new X).claims .pool 0 a = (movePool old new X).claims .pool 0 a := by
+  unfold secretMoves2
+  rw [moveClaim_claims_ne (by decide), moveClaim_claims_ne (by decide), moveClaim_claims_ne (by decide),
+    moveClaim_claims_ne (by decide), moveClaim_claims_ne (by decide), moveClaim_claims_ne (by decide), moveVal_claims,
+    moveClaim_claims_ne (by decide)]
+  apply movePool_pool_congr
+  rw [moveRewards_claims_ne (by decide), moveDelegators_claims_ne (by decide), moveCompound_claims_ne (by decide),
+    moveClaim_claims_ne (by decide)]
+
+theorem moveClaim_lastPool (k : Kind) (old new : Addr) (S : State) : (moveClaim k old new S).lastPool = S.lastPool := rfl
+theorem moveCompound_lastPool (old new : Addr) (S : State) : (moveCompound old new S).lastPool = S.lastPool := rfl
+theorem moveDelegators_lastPool (old new : Addr) (S : State) : (moveDelegators old new S).lastPool = S.lastPool := rfl
+
+theorem secretMoves2_lastPool (old new : Addr) (X : State) : (secretMoves2 old new X).lastPool = X.lastPool := by
+  unfold secretMoves2
+  rw [moveClaim_lastPool, moveClaim_lastPool, moveClaim_lastPool, moveClaim_lastPool, moveClaim_lastPool, moveClaim_lastPool,
+    moveVal_lastPool, moveClaim_lastPool, movePool_lastPool, moveRewards_lastPool, moveDelegators_lastPool,
+    moveCompound_lastPool, moveClaim_lastPool]
+
+/-- the same for `MsgRotateRecoveryAddress` -/
+theorem rotate_by_secret_pools {S S' : State} {m : SecretMsg} (h : rotateBySecret S m = .ok S') :
+    S'.lastPool = S.lastPool ∧ ∀ a, S'.claims .pool 0 a = (movePool m.addr m.recovery S).claims .pool 0 a := by
+  obtain ⟨S1, ch, R, c, _, hs, _, _, _, _, _, _, _, rfl⟩ := rotateBySecret_ok h
+  have hl := send_lastPool hs
+  have hc : S1.claims = S.claims := (send_frame hs).claims
+  constructor
+  · rw [secretMoves2_lastPool]
+    show (moveCoins m.addr m.recovery (withRotation S1 m.addr m.recovery)).lastPool = _
+    rw [moveCoins_lastPool]; exact hl
+  · intro a
+    rw [secretMoves2_pool]
+    apply movePool_pool_congr
+    rw [moveClaim_claims_ne (by decide)]
+    show (moveClaim .councilor m.addr m.recovery (moveClaim .collective m.addr m.recovery
+            (moveCoins m.addr m.recovery (withRotation S1 m.addr m.recovery)))).claims .pool = _
+    rw [moveClaim_claims_ne (by decide), moveClaim_claims_ne (by decide), moveCoins_claims]
+    show S1.claims .pool = _
+    rw [hc]
+
+/-- every pool id on record is at most the counter -/
+def PoolBound (S : State) : Prop := ∀ a i, S.claims .pool 0 a = some i → i ≤ S.lastPool
+/-- no two addresses own pools with one id -/
+def PoolUniq (S : State) : Prop := ∀ a b i, S.claims .pool 0 a = some i → S.claims .pool 0 b = some i → a = b
+
+theorem movePool_src (old new : Addr) (S : State) (a : Addr) (i : Nat)
+    (h : (movePool old new S).claims .pool 0 a = some i) : ∃ b, S.claims .pool 0 b = some i := by
+  rw [movePool_pool] at h
+  cases ho : S.claims .pool 0 old with
+  | none => rw [ho] at h; exact ⟨a, h⟩
+  | some v =>
+    rw [ho] at h
+    simp only at h
+    by_cases h1 : a = new
+    · rw [if_pos h1] at h; cases h; exact ⟨old, ho⟩
+    · rw [if_neg h1] at h
+      by_cases h2 : a = old
+      · rw [if_pos h2] at h; cases h
+      · rw [if_neg h2] at h; exact ⟨a, h⟩
+
+theorem movePool_uniq (old new : Addr) (S : State) (hu : PoolUniq S) :
+    ∀ a b i, (movePool old new S).claims .pool 0 a = some i → (movePool old new S).claims .pool 0 b = some i → a = b := by
+  intro a b i ha hb
+  rw [movePool_pool] at ha hb
+  cases ho : S.claims .pool 0 old with
+  | none => rw [ho] at ha hb; exact hu a b i ha hb
+  | some v =>
+    rw [ho] at ha hb
+    simp only at ha hb
+    by_cases a1 : a = new
+    · by_cases b1 : b = new
+      · rw [a1, b1]
+      · rw [if_pos a1] at ha; rw [if_neg b1] at hb
+        cases ha
+        by_cases b2 : b = old
+        · rw [if_pos b2] at hb; cases hb
+        · rw [if_neg b2] at hb; exact absurd (hu b old _ hb ho) b2
+    · rw [if_neg a1] at ha
+      by_cases a2 : a = old
+      · rw [if_pos a2] at ha; cases ha
+      · rw [if_neg a2] at ha
+        by_cases b1 : b = new
+        · rw [if_pos b1] at hb; cases hb
+          exact absurd (hu a old _ ha ho) a2
+        · rw [if_neg b1] at hb
+          by_cases b2 : b = old
+          · rw [if_pos b2] at hb; cases hb
+          · rw [if_neg b2] at hb; exact hu a b i ha hb
+
+/-- a rotation keeps both invariants … -/
+theorem rotation_keeps_pool_ids {S S' : State} (hb : PoolBound S) (hu : PoolUniq S)
+    (h : (∃ m, rotateByHolder S m = .ok S') ∨ (∃ m, rotateBySecret S m = .ok S')) : PoolBound S' ∧ PoolUniq S' := by
+  have key : ∃ old new, S'.lastPool = S.lastPool ∧ ∀ a, S'.claims .pool 0 a = (movePool old new S).claims .pool 0 a := by
+    rcases h with ⟨m, hm⟩ | ⟨m, hm⟩
+    · exact ⟨_, _, rotate_by_holder_pools hm⟩
+    · exact ⟨_, _, rotate_by_secret_pools hm⟩
+  obtain ⟨old, new, hl, hc⟩ := key
+  constructor
+  · intro a i hi
+    rw [hc] at hi
+    obtain ⟨b, hb'⟩ := movePool_src old new S a i hi
+    rw [hl]; exact hb b i hb'
+  · intro a b i ha hb'
+    rw [hc] at ha hb'
+    exact movePool_uniq old new S hu a b i ha hb'
+
+theorem newPool_fresh {S S' : State} {a : Addr} (h : newPool S a = some S') (hp : S.claims .pool 0 a = none) :
+    S'.lastPool = S.lastPool + 1 ∧ ∀ b, S'.claims .pool 0 b = if b = a then some (S.lastPool + 1) else S.claims .pool 0 b := by
+  unfold newPool at h
+  cases hv : S.vals a with
+  | none => rw [hv] at h; cases h
+  | some v =>
+    rw [hv] at h
+    simp only [hp, Option.some.injEq] at h
+    subst h
+    refine ⟨rfl, fun b => ?_⟩
+    by_cases e : b = a <;> simp [e]
+
+theorem newPool_existing {S S' : State} {a : Addr} {i : Nat} (h : newPool S a = some S') (hp : S.claims .pool 0 a = some i) : S' = S := by
+  unfold newPool at h
+  cases hv : S.vals a with
+  | none => rw [hv] at h; cases h
+  | some v => rw [hv] at h; simp only [hp, Option.some.injEq] at h; exact h.symm
+
+/-- … and so does the creation of a pool: the new pool gets an id no other pool has -/
+theorem new_pool_keeps_pool_ids {S S' : State} {a : Addr} (hb : PoolBound S) (hu : PoolUniq S) (h : newPool S a = some S') :
+    PoolBound S' ∧ PoolUniq S' := by
+  cases hp : S.claims .pool 0 a with
+  | some i => rw [newPool_existing h hp]; exact ⟨hb, hu⟩
+  | none =>
+    obtain ⟨hl, hc⟩ := newPool_fresh h hp
+    constructor
+    · intro b i hi
+      rw [hc] at hi
+      rw [hl]
+      by_cases e : b = a
+      · rw [if_pos e] at hi; cases hi; exact Nat.le_refl _
+      · rw [if_neg e] at hi; exact Nat.le_succ_of_le (hb b i hi)
+    · intro b c i hbi hci
+      rw [hc] at hbi hci
+      by_cases e1 : b = a
+      · by_cases e2 : c = a
+        · rw [e1, e2]
+        · rw [if_pos e1] at hbi; rw [if_neg e2] at hci
+          cases hbi
+          have := hb c _ hci
+          omega
+      · rw [if_neg e1] at hbi
+        by_cases e2 : c = a
+        · rw [if_pos e2] at hci; cases hci
+          have := hb b _ hbi
+          omega
+        · rw [if_neg e2] at hci
+          exact hu b c i hbi hci
+
+/-- what goes wrong when a rotation lowers the counter (the seeded change C10-r7): after moving the newest pool the
+counter would sit below an id in use, and the next pool would share it - `PoolBound` is exactly what excludes that -/
+example :
+    let S : State := { lastPool := 1, claims := fun k s a => if k = Kind.pool ∧ s = 0 ∧ a = 5 then some 2 else none,
+                       vals := fun a => if a = 7 then some ⟨0, 0⟩ else none }
+    ¬ PoolBound S ∧ ((newPool S 7).map fun S' => S'.claims .pool 0 7) = some (some 2) := by
+  constructor
+  · intro h; have := h 5 2 (by simp); simp at this
+  · simp [newPool]
+
+end Sekai.Props.REC
